@@ -544,6 +544,8 @@ func checkTyped(r *hx.Rng, i int) {
 		if dc != "ok" || !clocksEqual(got.Clocks, tc.Clocks) {
 			fail("sei.DecodeTimeCodeSEI", "roundtrip-differs", w, "decode(payload m) = "+dc+" "+ds+" payload "+hx.Hex(pl))
 		}
+		hygPayload("136", pl, nil, 0, sei.HEVCPicTimingParams{})
+		hygPayload("136", malformed(pl), nil, 0, sei.HEVCPicTimingParams{})
 	case 1:
 		tolen := byte(pickU(r, 31))
 		pt := genPicTiming(r, true, r.Bool(), tolen)
@@ -560,6 +562,8 @@ func checkTyped(r *hx.Rng, i int) {
 		if dc != "ok" || !ptEqual(got, pt) {
 			fail("sei.DecodePicTimingAvcSEIHRD", "roundtrip-differs", w, "decode(payload m) = "+dc+" "+ds+" payload "+hx.Hex(pl))
 		}
+		hygPayload("1", pl, pt.CbpDbpDelay, tolen, sei.HEVCPicTimingParams{})
+		hygPayload("1", malformed(pl), pt.CbpDbpDelay, tolen, sei.HEVCPicTimingParams{})
 	case 2:
 		m := genMdcv(r)
 		sz, pl, wc := tryPayload(m)
@@ -567,12 +571,16 @@ func checkTyped(r *hx.Rng, i int) {
 		if wc != "ok" || sz != uint(len(pl)) || dc != "ok" || *got != *m {
 			fail("sei.MasteringDisplayColourVolumeSEI", "roundtrip-differs", mdcvString(m), "decode(payload m) = "+dc+" "+ds)
 		}
+		hygPayload("137", pl, nil, 0, sei.HEVCPicTimingParams{})
+		hygPayload("137", malformed(pl), nil, 0, sei.HEVCPicTimingParams{})
 		c := &sei.ContentLightLevelInformationSEI{MaxContentLightLevel: uint16(pickU(r, 65535)), MaxPicAverageLightLevel: uint16(pickU(r, 65535))}
 		sz, pl, wc = tryPayload(c)
 		dc, ds, gc := decodeCll(pl)
 		if wc != "ok" || sz != uint(len(pl)) || dc != "ok" || *gc != *c {
 			fail("sei.ContentLightLevelInformationSEI", "roundtrip-differs", ds, "decode(payload m) = "+dc+" "+ds)
 		}
+		hygPayload("144", pl, nil, 0, sei.HEVCPicTimingParams{})
+		hygPayload("144", malformed(pl), nil, 0, sei.HEVCPicTimingParams{})
 	case 3:
 		// pass-through: whenever the decoder returns a message, Payload() is the input and Size() its length
 		var pl []byte
@@ -591,6 +599,8 @@ func checkTyped(r *hx.Rng, i int) {
 		if dc == "ok" && (!bytes.Equal(m.Payload(), pl) || m.Size() != uint(len(pl))) {
 			fail("sei pass-through "+which, "payload-changed", hx.Hex(pl), "decoded message does not return its payload unchanged")
 		}
+		hygPayload(which, pl, nil, 0, par)
+		hygPayload(which, malformed(pl), nil, 0, par)
 	}
 }
 
@@ -630,6 +640,8 @@ func checkTypedList(r *hx.Rng) {
 		fail("sei.WriteSEIMessages", "write-fails", w, "error on typed messages")
 		return
 	}
+	hygWrite(w, ms, nil)
+	hygStream(buf.Bytes())
 	nalu := append([]byte{0x4e, 0x01}, buf.Bytes()...)
 	var got []sei.SEIMessage
 	var err error
